@@ -23,6 +23,7 @@ import io
 import itertools
 import os
 import random
+import re
 import tarfile
 import typing as T
 import zipfile
@@ -971,7 +972,19 @@ def b_build(root: str, spec: dict) -> dict:
     diffs = spec.get('diffs')
     if diffs:
         good_d, after = _good_diff()
-        if diffs == 'good':
+        if diffs == 'good' and spec.get('diff_build'):
+            # a second diff that edits the subproject's own build file (upstream sources that already have one):
+            # the marker the build file prints then tells whether the diff step was complete
+            assert src_has_build and 'patch' not in roles and not spec.get('patch_directory')
+            b_before = _src_tree(True)['meson.build'].decode()
+            b_after = b_before.replace('src-build-good', 'src-build-good-diffed')
+            files[f'{sp}/packagefiles/sub/0001.diff'] = good_d
+            files[f'{sp}/packagefiles/sub/0002-build.diff'] = ''.join(difflib.unified_diff(
+                b_before.splitlines(keepends=True), b_after.splitlines(keepends=True), 'a/meson.build', 'b/meson.build'))
+            wrap.append('diff_files = sub/0001.diff, sub/0002-build.diff')
+            expected['lib/data.txt'] = after
+            expected['meson.build'] = b_after.encode()
+        elif diffs == 'good':
             files[f'{sp}/packagefiles/sub/0001.diff'] = good_d
             wrap.append('diff_files = sub/0001.diff')
             expected['lib/data.txt'] = after
@@ -991,6 +1004,8 @@ def b_build(root: str, spec: dict) -> dict:
     for e in extras:
         facts['expected_tree'].update(EXTRA_EXPECT[e])
     facts['has_buildfile_when_complete'] = 'meson.build' in expected
+    m = re.search(rb"marker = '([^']*)'", expected.get('meson.build', b''))
+    facts['final_marker'] = m.group(1).decode() if m else None
     facts['files'] = files
     return facts
 
